@@ -1,6 +1,7 @@
 """Thorough tier: stored mutants.  Each patch in mutants/<Cxx>/ is a realistic single-site edit of
 /repo that compiles; the property's rule must report it.  Scratch copies live under a mktemp
 directory outside /repo and /verif and are removed before returning."""
+import time
 import os
 import shutil
 import subprocess
@@ -25,8 +26,16 @@ def parse_header(path):
 
 
 def scratch_copy(repo):
+    # (bin/seedverify applies a seeded change to /repo for the duration of a check and says so through this file: wait for it to be undone)
+    lock = '/tmp/.dc_repo_patched.lock'
     d = tempfile.mkdtemp(prefix='dcmut.')
-    subprocess.check_call(['rsync', '-a', '--exclude', 'target', '--exclude', '.git', repo + '/', d + '/'])
+    for _ in range(600):
+        if os.path.exists(lock) and repo == engine.REPO:
+            time.sleep(2)
+            continue
+        subprocess.check_call(['rsync', '-a', '--delete', '--exclude', 'target', '--exclude', '.git', repo + '/', d + '/'])
+        if not (os.path.exists(lock) and repo == engine.REPO):
+            break
     return d
 
 
